@@ -334,6 +334,9 @@ pub fn scenarios() -> Vec<Scenario> {
     }
     // --- prune variants
     let prune_variants: Vec<(&'static str, PruneOptions, bool)> = vec![
+        // tree packs large enough to hold all trees of one backup: partly used ones get repacked
+        ("prune-repack-trees", PruneOptions::default().max_unused(LimitOption::Percentage(0)).max_repack(LimitOption::Unlimited), false),
+        ("prune-repack-trees-instant", PruneOptions::default().instant_delete(true).max_unused(LimitOption::Percentage(0)).max_repack(LimitOption::Unlimited), false),
         ("prune-mark-only", PruneOptions::default(), false),
         ("prune-delete-marked", PruneOptions::default().keep_delete(jiff::Span::new()), true),
         ("prune-repack-fast", PruneOptions::default().max_unused(LimitOption::Percentage(0)).max_repack(LimitOption::Unlimited).fast_repack(true), false),
@@ -341,7 +344,7 @@ pub fn scenarios() -> Vec<Scenario> {
         ("prune-instant-delete", PruneOptions::default().instant_delete(true).max_unused(LimitOption::Percentage(0)).max_repack(LimitOption::Unlimited), false),
     ];
     for (name, opts, premark) in prune_variants {
-        let (env, mut allowed) = base_repo(3, 600, 500);
+        let (env, mut allowed) = base_repo(3, 600, if name.starts_with("prune-repack-trees") { 4000 } else { 500 });
         forget(&env, &["s0", "s1"]);
         _ = allowed.remove("s0");
         _ = allowed.remove("s1");
@@ -362,6 +365,9 @@ pub fn scenarios() -> Vec<Scenario> {
                     let repo = open_with(&bes)?;
                     gate.set_enabled(true);
                     let plan = es(repo.prune_plan(&opts))?;
+                    if std::env::var("VERIF_DEBUG").is_ok() {
+                        eprintln!("plan: {:?}", plan.stats.debug.0.iter().map(|(k, v)| (format!("{:?}/{:?}", k.todo, k.blob_type), v.packs)).collect::<Vec<_>>());
+                    }
                     es(repo.prune(&opts, plan))?;
                     Ok("ok".into())
                 })
@@ -469,6 +475,12 @@ fn run_with_failure(sc: &Scenario, k: usize) -> Result<(Result<String, String>, 
         match rx.recv_timeout(Duration::from_millis(50)) {
             Ok(r) => {
                 let w = world.lock().unwrap();
+                if std::env::var("VERIF_DEBUG").is_ok() {
+                    eprintln!("result: {r:?}");
+                    for o in w.log.iter().filter(|o| o.mut_idx.is_some()) {
+                        eprintln!("  mut {:?} {:?} {:?} {} len={} ok={}", o.mut_idx, o.kind, o.tpe, &vkit::decode::hex_id(&o.id)[..8], o.len, o.ok);
+                    }
+                }
                 return Ok((r, w.stores[0].clone(), w.mut_count));
             }
             Err(_) if start.elapsed() > Duration::from_secs(20) => return Err("command did not terminate within 20 s after an injected failure".into()),
